@@ -8,7 +8,9 @@ package main
 // process.  That is a configuration state machine; its transitions are decided by WHICH functions write the
 // three wiring variables and from where these functions can be reached.
 //
-// The facts are read from a reference graph over every non-test, non-verif Go file below client/ and lib/utxo/:
+// The facts are read from a reference graph over every non-test, non-verif Go file below client/ and lib/utxo/
+// AND of every package of the module in their transitive import closure (lib/chain, lib/btc, lib/script,
+// lib/others/…: whatever the node process links):
 //   node   = top-level function or method (function literals belong to the function they are written in);
 //            one extra node per package for the package-level `var` initialisers
 //   edge   = the body MENTIONS a top-level function (called or taken as a value: command tables, HTTP handlers
@@ -114,11 +116,19 @@ func loadWire() *wgraph {
 	ctx := build.Default
 	ctx.BuildTags = nil // production build: files tagged `verif` are accessors of the harness, not node code
 	ctx.CgoEnabled = true
+	// the directories below client/ and lib/utxo/ and, transitively, every package of the module they import:
+	// a writer of the wiring variables (or an edge towards one) in lib/chain, lib/btc, lib/others/… is code the
+	// node runs just as well
+	seenDir := map[string]bool{}
 	for _, d := range dirs {
+		seenDir[d] = true
+	}
+	for qi := 0; qi < len(dirs); qi++ {
+		d := dirs[qi]
 		abs := filepath.Join(root, d)
 		ents, err := os.ReadDir(abs)
 		if err != nil {
-			die(err)
+			die(fmt.Errorf("package directory %s (imported from the client's import closure): %v", d, err))
 		}
 		p := &wpkg{dir: d, funcs: map[string]bool{}, vars: map[string]bool{}, meths: map[string][]string{}}
 		for _, e := range ents {
@@ -140,11 +150,22 @@ func loadWire() *wgraph {
 				continue // a stray file of another package in the same directory
 			}
 			p.files = append(p.files, &wfile{ast: af})
+			for _, im := range af.Imports {
+				path := strings.Trim(im.Path.Value, "\"`")
+				if strings.HasPrefix(path, modPath) {
+					if rel := strings.TrimPrefix(path, modPath); !seenDir[rel] {
+						seenDir[rel] = true
+						dirs = append(dirs, rel)
+					}
+				}
+			}
 		}
 		if len(p.files) > 0 {
 			g.pkgs[d] = p
 		}
 	}
+	// every OTHER non-test Go file of the repository (packages the client does not import: tools/, wallet/, …)
+	// is outside the graph; such a file cannot run inside the node process.
 	// declarations
 	for _, p := range g.pkgs {
 		inits := 0
@@ -586,7 +607,7 @@ func wireFacts() string {
 	facts += 4 + len(writers)
 
 	var sb strings.Builder
-	sb.WriteString("/- GENERATED by go/cmd/gen_c20 (wire.go) from every non-test Go file below client/ and lib/utxo/ — do not edit; not in git. -/\n")
+	sb.WriteString("/- GENERATED by go/cmd/gen_c20 (wire.go) from every non-test Go file below client/, lib/utxo/ and of every module package they import (transitively) — do not edit; not in git. -/\n")
 	sb.WriteString("namespace GocoinV.Gen.MemWire\n\n")
 	b := func(v bool) string {
 		if v {
@@ -601,7 +622,7 @@ func wireFacts() string {
 	fmt.Fprintf(&sb, "/-- Memory := NewAllocator(), Memory_Malloc := thatAllocator.Malloc, Memory_Free := thatAllocator.Free, one block, once -/\ndef wirePaired : Bool := %s\n", b(paired))
 	sb.WriteString("\nend GocoinV.Gen.MemWire\n")
 	if os_debug() {
-		fmt.Fprintf(os.Stderr, "wire: writers=%v reset=%v runtime=%v once=%v paired=%v nodes=%d roots=%d\n", writers, resetRewires, runtimeRewires, initOnce, paired, len(g.nodes), len(roots))
+		fmt.Fprintf(os.Stderr, "wire: writers=%v reset=%v runtime=%v once=%v paired=%v nodes=%d roots=%d packages=%d\n", writers, resetRewires, runtimeRewires, initOnce, paired, len(g.nodes), len(roots), len(g.pkgs))
 	}
 	return sb.String()
 }
